@@ -19,6 +19,7 @@ def levels(tier):
         return [
             {"name": "n2", "n": 2, "alphabet": ["page", "links", "we", "rule"], "links_batch": 1, "rule_patterns": ["path1"], "clear": True,
              "tpool": [0, 1]},
+            {"name": "rule-del", "n": 1, "prelude": [["rule", [1, 3, "path1"]], ["page", 1, False]], "alphabet": ["delwe", "page", "we"], "clear": True},
             {"name": "n1-wide", "n": 1, "alphabet": ["page", "links", "we", "rule", "batch", "addprefix"], "links_batch": 1, "batch_targets": 1,
              "rule_patterns": ["path1"], "clear": True},
         ]
@@ -26,6 +27,7 @@ def levels(tier):
         {"name": "n2", "n": 2, "alphabet": ["page", "links", "we", "rule", "delwe", "batch", "addprefix", "moveprefix"], "links_batch": 2,
          "batch_targets": 2, "rule_patterns": ["path1", "subdomain"], "clear": True, "we_two_prefixes": True},
         {"name": "n3", "n": 3, "alphabet": ["page", "links", "we", "rule", "delwe"], "links_batch": 1, "rule_patterns": ["path1"], "clear": True},
+        {"name": "rule-del", "n": 2, "prelude": [["rule", [1, 3, "path1"]], ["page", 1, False]], "alphabet": ["delwe", "page", "we", "rmprefix"], "clear": True},
     ]
 
 
@@ -47,12 +49,15 @@ def harness(E):
     b = E.Traph(folder=fb, default_webentity_creation_rule=RULES["domain"], webentity_creation_rules={})
     tw = Twin(E, a, b)
     h = History(E, tw, ref, pool, P["alphabet"], P)
+    h.prelude(P.get("prelude"))
     reopened = 0
     for i in range(P["n"]):
         if reopened:
             E.reach("write-after-reopen")
         h.step(i)
         act = E.choose("after%d" % i, 3 if P.get("clear") else 2)     # 0: go on, 1: close+reopen the first index, 2: clear both
+        if act != 0:
+            read_battery(E, tw, pool)      # observations before the restart/clear as well (query, restart, query again)
         if act == 1:
             sizes_ok(E, tw.a)
             E.call("close", tw.a.close, _allowed=())
